@@ -918,7 +918,8 @@ Section Main.
 
   (* the alternatives contributed by the redefiners of u *)
   Lemma ALTS u E off : forall xs,
-    (forall y, in_kids y xs -> W y) -> wf_kids e xs = true -> NoDup (ids_kids xs) ->
+    (forall y, in_kids y xs -> W y) -> (forall y, in_kids y xs -> item_redef y = Some u -> wf e y = true) ->
+    NoDup (ids_kids xs) ->
     (forall y, in_kids y xs -> item_redef y = Some u -> elem_table y = false /\ extent e y <= E) ->
     forall an, exists ls an',
       walk_alts (alts_red u xs) off an = Ok (ls, an') /\ max_size ls <= E /\ extends (K (red_ids u xs)) an an' /\
@@ -928,7 +929,8 @@ Section Main.
     induction xs as [|z zs IH]; intros HW Hwf Hnd Hok an.
     - exists LANil, an. rewrite walk_alts_nil. split; [reflexivity|]. split; [cbn; lia|]. split; [apply extends_refl|].
       intros y [].
-    - cbn [wf_kids] in Hwf. apply andb_true_iff in Hwf. destruct Hwf as [Hwz Hwzs].
+    - assert (Hwzs : forall y, in_kids y zs -> item_redef y = Some u -> wf e y = true)
+        by (intros y Hy; apply Hwf; right; exact Hy).
       assert (Hndz : NoDup (ids z)) by (cbn [ids_kids] in Hnd; apply NoDup_app_l in Hnd; exact Hnd).
       assert (Hndzs : NoDup (ids_kids zs)) by (cbn [ids_kids] in Hnd; apply NoDup_app_r in Hnd; exact Hnd).
       assert (HWzs : forall y, in_kids y zs -> W y) by (intros y Hy; apply HW; right; exact Hy).
@@ -937,6 +939,7 @@ Section Main.
       cbn [alts_red red_ids]. destruct (item_redef z) as [u'|] eqn:Ez.
       + destruct (N.eqb u u') eqn:Eu.
         * apply N.eqb_eq in Eu. subst u'.
+          assert (Hwz : wf e z = true) by (apply Hwf; [left; reflexivity|exact Ez]).
           destruct (HW z (or_introl eq_refl) Hwz Hndz off an) as (lz & an1 & Hwalk & Hgz & Hrz & Hlz).
           destruct (Hok z (or_introl eq_refl) Ez) as [Hetz Hextz].
           destruct (IH HWzs Hwzs Hndzs Hokzs an1) as (ls & an2 & Hwa & Hmax & Hext & Hall).
@@ -1033,7 +1036,9 @@ Section Main.
           cbn [negb] in Het. rewrite orb_false_r in Het. apply negb_true_iff in Het.
           assert (Hok : forall y, in_kids y xs -> item_redef y = Some (item_id x) -> elem_table y = false /\ extent e y <= extent e x).
           { apply (unions_ok_redefiner e (item_id x) (extent e x) xs _ Huxs); [apply assoc_cons_eq|exact Hxnot]. }
-          destruct (ALTS (item_id x) (extent e x) off xs HWxs Hwxs Hndxs Hok an1) as (ls & an2 & Hwa & Hmax & Hext2 & Hall).
+          assert (Hwred : forall y, in_kids y xs -> item_redef y = Some (item_id x) -> wf e y = true)
+            by (intros y Hy _; eapply wf_kids_in; eassumption).
+          destruct (ALTS (item_id x) (extent e x) off xs HWxs Hwred Hndxs Hok an1) as (ls & an2 & Hwa & Hmax & Hext2 & Hall).
           set (l1 := LOne off (max_size (LACons lx ls)) (LACons lx ls)).
           assert (Hl1 : lsize l1 = extent e x) by (unfold l1; cbn [lsize max_size]; rewrite Hszx; lia).
           set (an4 := (KRedef (item_id x), l1) :: (KRedef (item_id x), l1) :: an2).
